@@ -235,6 +235,11 @@ def check_C02():
     tlc_must_pass(model, "ArchiveCases invariants (%s)" % cfg)
     em = run_tlc("MCArchive", cfg + "_emitScan.cfg", timeout=1800)
     tlc_must_pass(em, "ArchiveCases emitter")
+    # plus archives holding a section larger than 64 KiB (cut offsets sampled there)
+    emb = run_tlc("MCArchive", "Archive_TBig_emitScan.cfg", timeout=1800)
+    tlc_must_pass(emb, "ArchiveCases emitter (big sections)")
+    with open(em["out"], "a") as f:
+        f.write(open(emb["out"]).read())
     obs, arch = os.path.join(scratch(), "obs.ndjson"), os.path.join(scratch(), "arch.ndjson")
     rc, rep = harness_run(vh, ["archive-replay", em["out"], "@REPORT", "mode=trunc", "obs=" + obs, "arch=" + arch], timeout=3000)
     val = run_tlc("ReaderObs", "ReaderObs.cfg", workers=1, timeout=3000, env={"VERIF_OBS": obs, "VERIF_ARCH": arch})
